@@ -74,7 +74,7 @@ impl Prop for C07 {
             v.push(format!("fixings:{}", f));
         }
         v.push("fed-vs-nyc".into());
-        for c in ["restored:json", "restored:pickle-state", "via-NamedCal", "in-comma-list", "python-layer:get_calendar_by_name"] {
+        for c in ["restored:json", "restored:pickle-state", "via-NamedCal", "in-comma-list", "python-layer:get_calendar_by_name", "python-layer:views-of-the-built-in-calendar"] {
             v.push(c.to_string());
         }
         v.push("fixings:other-forms-of-the-calendar".to_string());
@@ -84,7 +84,7 @@ impl Prop for C07 {
         800_000
     }
     fn rule(&self) -> String {
-        "Exhaustive: every date 1970-01-01..2200-12-31 of the 9 fully specified calendars (tgt nyc fed ldn stk osl zur all bus) compared with the hand-transcribed rule engine; fed compared with nyc minus Good Friday; every documented fixed-date / Easter-linked holiday of tro tyo syd wlg mum; all 14 documented names; the 9 fixing files. A case is non-trivial and distinct per (calendar, date) on which the table or the rules place a holiday, or per fixing-file date.".into()
+        "Exhaustive: every date 1970-01-01..2200-12-31 of the 9 fully specified calendars (tgt nyc fed ldn stk osl zur all bus) compared with the hand-transcribed rule engine; fed compared with nyc minus Good Friday; every documented fixed-date / Easter-linked holiday of tro tyo syd wlg mum; all 14 documented names, each also as a Python user sees it (the object from the Python get_calendar_by_name, NamedCal(name) and a one-member UnionCal through the Python-facing holidays / week_mask / is_bus_day / is_non_bus_day on every date and bus_date_range over the whole span); the 9 fixing files. A case is non-trivial and distinct per (calendar, date) on which the table or the rules place a holiday, or per fixing-file date.".into()
     }
     fn assumptions(&self) -> Vec<String> {
         vec![
@@ -314,6 +314,57 @@ impl Prop for C07 {
                         ctx.violation(&format!("C07|python-layer|name-unresolved|{}", name), json!({"name": name}));
                         return;
                     }
+                }
+                // what a Python user sees of the calendar - the plain object, the NamedCal of that name and a
+                // one-member union, through the Python-facing methods: holiday list, week mask, the day predicates
+                // on every date 1970-2200 and the enumerated business days from the first to the last business day of the span
+                {
+                    let want: Vec<i64> = (z_lo..=z_hi).filter(|z| cal.is_bus_day(&to_ndt(*z))).collect();
+                    let core_h = {
+                        let mut h = rateslib::verif::cal_holidays(&cal);
+                        h.sort();
+                        h
+                    };
+                    let core_wm: std::collections::HashSet<u8> = rateslib::verif::cal_week_mask(&cal).into_iter().collect();
+                    let pyc = rateslib::verif::verif_py_get_calendar_by_name(name).ok();
+                    let pyn = rateslib::calendars::NamedCal::verif_py_new(name.to_string()).ok();
+                    let pyu = rateslib::calendars::UnionCal::verif_py_new(vec![cal.clone()], None).ok();
+                    macro_rules! view {
+                        ($label:expr, $o:expr) => {{
+                            ctx.class("python-layer:views-of-the-built-in-calendar");
+                            ctx.eval(3 + (z_hi - z_lo + 1) as u64);
+                            ctx.asserted(3 + (z_hi - z_lo + 1) as u64);
+                            let o = match $o.as_ref() {
+                                Some(o) => o,
+                                None => {
+                                    ctx.violation(&format!("C07|python-layer|{}|constructor-refused", $label), json!({"name": name}));
+                                    return;
+                                }
+                            };
+                            let mut h = o.verif_py_holidays();
+                            h.sort();
+                            if h != core_h || o.verif_py_week_mask() != core_wm {
+                                ctx.violation(&format!("C07|python-layer|{}|holidays-or-week-mask-differ", $label), json!({"name": name, "n_holidays": h.len(), "n_core": core_h.len()}));
+                                return;
+                            }
+                            let listed: Option<Vec<i64>> = o.verif_py_bus_date_range(to_ndt(want[0]), to_ndt(*want.last().unwrap())).ok().map(|v| v.iter().map(crate::calmodel::from_ndt).collect());
+                            if listed.as_ref() != Some(&want) {
+                                let first = listed.as_ref().and_then(|l| (0..want.len().max(l.len())).find(|i| want.get(*i) != l.get(*i)).map(|i| (want.get(i).map(|z| fmt_z(*z)), l.get(i).map(|z| fmt_z(*z)))));
+                                ctx.violation(&format!("C07|python-layer|{}|bus_date_range-differs", $label), json!({"name": name, "n_business_days": want.len(), "n_listed": listed.as_ref().map(|l| l.len()), "first_difference (expected, listed)": first}));
+                                return;
+                            }
+                            for z in z_lo..=z_hi {
+                                let dt = to_ndt(z);
+                                if o.verif_py_is_bus_day(dt) != cal.is_bus_day(&dt) || o.verif_py_is_non_bus_day(dt) == cal.is_bus_day(&dt) {
+                                    ctx.violation(&format!("C07|python-layer|{}|is_bus_day-differs", $label), json!({"name": name, "date": fmt_z(z)}));
+                                    return;
+                                }
+                            }
+                        }};
+                    }
+                    view!("Cal", pyc);
+                    view!("NamedCal", pyn);
+                    view!("UnionCal", pyu);
                 }
                 // a built-in calendar that has been saved and loaded again (JSON, pickle state) still reports the
                 // same holidays on every date 1970-2200; so does the calendar reached through a NamedCal
